@@ -15,8 +15,8 @@ META = {
     "rule": "a case = ordered pair of presented states (or one presentation for the canonical form); non-trivial = the two "
             "states differ and are not orthogonal, or differ only by generator signs; distinct = distinct ordered pairs of generating sets",
     "bounds": {"quick": "S_1,S_2: all ordered pairs x all pairs of generating sets; S_3: all 1080 states x 120 reference states both orders; "
-                        "canonical_form on all presentations n<=3; __eq__ and Infidelity on all pairs of S_2",
-               "thorough": "+ all 1 166 400 ordered pairs of S_3; alternative destabilizer completions for S_2"},
+                        "canonical_form on all presentations n<=3; __eq__ and Infidelity on all pairs of S_2; 5 qubits: every 4th of the 32768 states H_A(I|Gamma) for A in {3,12} against 8 reference states, both orders",
+               "thorough": "+ all 1 166 400 ordered pairs of S_3; alternative destabilizer completions for S_2; 5 qubits: all 32768 Gamma x all 32 Hadamard subsets (every 5-qubit state up to signs) against 8 reference states"},
     "assumptions": ["fidelity values are compared with tolerance 1e-9 (true values are 0 or 2^-k)"],
 }
 
@@ -33,6 +33,10 @@ def shards(tier):
         out.append({"kind": "canon", "n": 3, "lo": a, "hi": a + 30})
     for a in range(0, 60, 6):
         out.append({"kind": "eq", "lo": a, "hi": a + 6})
+    # 5 qubits: states H_A (I | Gamma) (every 5-qubit stabilizer state up to signs has this form) against 8 reference states, both argument orders
+    for A in ((3, 12) if tier == "quick" else tuple(range(32))):
+        for a in range(0, 1 << 15, 1 << 12):
+            out.append({"kind": "lag5", "A": A, "lo": a, "hi": a + (1 << 12), "step": 4 if tier == "quick" else 1})
     if tier == "thorough":
         for a in range(0, 1080, 12):
             out.append({"kind": "s3all", "lo": a, "hi": a + 12})
@@ -107,6 +111,24 @@ def run_shard(shard, tier, acc):
                     acc.violation("inner", "metric.inner_product", "raises-" + type(e).__name__,
                                   {"n": n, "a": st[i].strings(), "b": st[j].strings()}, "a number", repr(e)[:200])
         acc.sample(case)
+    elif kind == "lag5":
+        from .c11 import lagrangian
+        n = 5
+        fixed = [P.StabGroup.zero(n), lagrangian(n, 0, 31), P.graph_group(n, [(0, q) for q in range(1, n)]), P.graph_group(n, [(q, q + 1) for q in range(n - 1)]),
+                 lagrangian(n, 0b101100111000101, 5, 0b00110)]
+        fixed = [(g, g.vector()) for g in fixed]
+        for mask in range(shard["lo"], shard["hi"], shard["step"]):
+            ga = lagrangian(n, mask, shard["A"])
+            va = ga.vector()
+            ta = gq.group_to_clifford_tableau(ga)
+            flipped = P.StabGroup(n, [ga.gens[0][:2] + ((ga.gens[0][2] + 2) & 3,)] + list(ga.gens[1:]))
+            refs = fixed + [(ga.copy(), va), (flipped, flipped.vector()), (lagrangian(n, mask, shard["A"] ^ 1), None)]
+            for gb, vb in refs:
+                vb = gb.vector() if vb is None else vb
+                tb = gq.group_to_clifford_tableau(gb)
+                fid_check(acc, ga, gb, va, vb, {"n": n, "a": ga.strings(), "b": gb.strings()}, ta, tb)
+                fid_check(acc, gb, ga, vb, va, {"n": n, "a": gb.strings(), "b": ga.strings()}, tb, ta)
+        acc.sample({"n": n, "a": ga.strings(), "b": gb.strings()})
     elif kind in ("s3ref", "s3all"):
         st = spaces.stabilizer_states(3)
         if kind == "s3ref":
